@@ -15,6 +15,7 @@
    LockV2Contract and RenewV2Contract themselves. *)
 From HostdBase Require Import Base.
 From HostdRoots Require Import Model Lists ProofsReplay ProofsInv ProofsStep ProofsRenew ProofsSpec ProofsTop.
+From HostdRoots Require Import Sess SessFrame SessProofs SessTop Chain ChainProofs.
 Open Scope N_scope.
 
 (* RHP2 renew-and-clear / RHP3 renew (Manager.RenewContract) accepted in a reachable state *)
@@ -141,6 +142,120 @@ Theorem c13_only_prune_frees_slots : forall s o r, o <> Prune ->
 Proof. exact located_kept. Qed.
 Print Assumptions c13_only_prune_frees_slots.
 
+(* ------------------------------------------------------------------------------------------------
+   WP-N: renewals that fail late, renewals racing with payments, renewals that never confirm
+   (Sess.v: sessions over the manager; Chain.v: contract status, expiry, proof).  Vocabulary of the
+   sessions as in Props_C03.v; SRenewH t pool_ok o is the tail of a renewal handler (RHP2
+   rpcRenewAndClearContract, RHP3 handleRPCRenew, RHP4 renew / refresh): the chain manager validates
+   the renewal transaction set, THEN RenewContract / RenewV2Contract [o] is called; SPayDecide /
+   SPayPersist are a paying RHP3 RPC's counter-signed payment revision and its write to the store.
+   ------------------------------------------------------------------------------------------------ *)
+
+(* A renewal whose transaction set the pool rejects leaves the predecessor — and everything else —
+   exactly as it was: RenewContract is never reached. *)
+Theorem c13_renewal_rejected_by_pool_leaves_predecessor : forall S t o,
+  sstep faithful S (SRenewH t false o) = (S, SO (ORes (Err EInvalid))).
+Proof. exact pool_rejected_unchanged. Qed.
+Print Assumptions c13_renewal_rejected_by_pool_leaves_predecessor.
+
+(* whatever makes the handler's renewal fail: pool, the manager's sanity checks, the store at any statement *)
+Theorem c13_failed_renewal_handler_unchanged : forall S t ok o S' r,
+  is_renewal o -> sstep faithful S (SRenewH t ok o) = (S', SO (ORes r)) -> r <> Ok tt -> S' = S.
+Proof. exact renewal_handler_error_unchanged. Qed.
+Print Assumptions c13_failed_renewal_handler_unchanged.
+
+(* Legacy (seeded change C13-mut8): RenewContract BEFORE the pool validation (variant storefirstv).
+   The renter is told the renewal failed; the predecessor is cleared and points to a successor whose
+   formation can never confirm. *)
+Theorem c13_renewal_stored_before_pool_validation_refuted : exists evs e id d,
+  sdisc_run meta0 true storefirstv sinit (evs ++ [e]) /\
+  (exists t o, e = SRenewH t false o) /\
+  let S := sruns storefirstv sinit evs in
+  snd (sstep storefirstv S e) = SO (ORes (Err EInvalid)) /\
+  ~ renewed1 (sb S) id d /\ renewed1 (sb (fst (sstep storefirstv S e))) id d.
+Proof. exact store_before_pool_refuted. Qed.
+Print Assumptions c13_renewal_stored_before_pool_validation_refuted.
+
+(* Renewals racing with revisions of the same contract, paying RPCs included: under every interleaving
+   of sessions that respects the lock protocol (a payment revision is decided AND persisted while its
+   session holds the lock), a renewed predecessor stays renewed — v1: cleared, at the maximum revision
+   number, refusing Manager.Lock; v2: renewed_to set, reporting Renewed — for ever. *)
+Theorem c13_predecessor_stays_renewed_under_payments : forall meta evs S id d,
+  SInv meta S -> sdisc_run meta true faithful S evs ->
+  (renewed1 (sb S) id d -> renewed1 (sb (sruns faithful S evs)) id d) /\
+  (renewed2 (sb S) id d -> renewed2 (sb (sruns faithful S evs)) id d).
+Proof. exact renewed_predecessor_stays. Qed.
+Print Assumptions c13_predecessor_stays_renewed_under_payments.
+
+Theorem c13_renewed_predecessor_refuses_waiters : forall meta S t id d, SInv meta S -> renewed1 (sb S) id d ->
+  sstep faithful S (SAcq1 t id) = (S, SOLock1 (Err EInvalid)) \/ sstep faithful S (SAcq1 t id) = (S, SOBusy).
+Proof. exact renewed1_refuses_lock. Qed.
+Print Assumptions c13_renewed_predecessor_refuses_waiters.
+
+(* the discipline is preserved by the sessions' steps, so the two theorems above apply along any history *)
+Theorem c13_sessions_invariant : forall meta evs S, SInv meta S -> sdisc_run meta true faithful S evs ->
+  SInv meta (sruns faithful S evs).
+Proof. exact sinv_runs. Qed.
+Print Assumptions c13_sessions_invariant.
+
+(* Legacy (seeded change C13-mut7): the payment revision is persisted after its session released the
+   lock.  A history in which every event respects the discipline but that one: the renewal is accepted
+   in the window, the late write puts revision n+1 back on the cleared predecessor, which is then
+   renewed AND below the maximum revision number, and Manager.Lock admits it. *)
+Theorem c13_payment_persisted_outside_lock_refuted : exists evs id d,
+  sdisc_run meta0 false faithful sinit evs /\
+  let S := sruns faithful sinit evs in
+  (exists c, alookup id (t1 (dbs (sb S))) = Some c /\ rto c = Some d /\ rev c <> max_rev) /\
+  exists t S' x, sstep faithful S (SAcq1 t id) = (S', SOLock1 (Ok x)).
+Proof. exact payment_outside_lock_refuted. Qed.
+Print Assumptions c13_payment_persisted_outside_lock_refuted.
+
+(* The never-confirmed RHP4 renewal (a recorded finding, known_findings.d/C13.json).  C13 hands the roots
+   over when the renewal is negotiated; the statement "the sectors stay stored ... the successor accepts
+   revisions" presumes that the renewal is confirmed.  Full statement, which the model refutes:
+     for every history in which contract id, confirmed on the chain, holds data when its renewal is
+     negotiated, id or its successor can prove that data when the proof window comes.
+   Witness: StoreSec 1; Form2 7; confirm 7; Revise2 7 [1]; Renew2 7 8; reject 8 (never confirmed);
+   expire; Prune — contract 7 is still active, unrevisable, without roots, sector 1 has lost its slot,
+   the proof cannot be built, 7 ends failed.  Nothing moves the roots back or clears renewed_to. *)
+Theorem c13_unconfirmed_renewal_strands_predecessor_refuted : exists ops0 ops id r,
+  xdisc_run meta0 xinit (ops0 ++ ops) /\
+  (let X0 := xruns xinit ops0 in
+   status X0 id = Some CActive /\ mem r (located (dbs (xb X0))) = true /\
+   exists c, alookup id (t2 (dbs (xb X0))) = Some c /\ rto c = None /\ tbl_list (rows c) = [r] /\ mroot c = meta0 [r]) /\
+  (let X := xruns xinit (ops0 ++ ops) in
+   status X id = Some CActive /\
+   (exists c d, alookup id (t2 (dbs (xb X))) = Some c /\ rto c = Some d /\ status X d = Some CRejected /\
+                rows c = [] /\ mroot c = meta0 [r]) /\
+   mem r (located (dbs (xb X))) = false /\
+   snd (xstep X (XProve id (meta0 (cache_get (xb X) id)))) = XO (OBool false) /\
+   status (fst (xstep X (XProve id (meta0 (cache_get (xb X) id))))) id = Some CFailed).
+Proof. exact unconfirmed_renewal_strands_refuted. Qed.
+Print Assumptions c13_unconfirmed_renewal_strands_predecessor_refuted.
+
+(* What does hold: once a contract (a successor whose renewal was confirmed, or any confirmed
+   contract) is confirmed it is never rejected; while no manager call names it and sector expiry runs
+   at heights up to its expiration, its rows, its served list and the volume slots of its sectors stay
+   — through every prune, every expiry of other contracts, every rejection of others. *)
+Theorem c13_confirmed_renewal_keeps_data : forall ops X id c,
+  alookup id (t2 (dbs (xb X))) = Some c -> confirmed (status X id) -> quiet_run id c X ops ->
+  let X' := xruns X ops in
+  alookup id (t2 (dbs (xb X'))) = Some c /\ confirmed (status X' id) /\
+  cache_get (xb X') id = cache_get (xb X) id /\
+  forall r, mem r (tbl_list (rows c)) = true -> mem r (located (dbs (xb X))) = true ->
+            mem r (located (dbs (xb X'))) = true.
+Proof. exact confirmed_keeps_data. Qed.
+Print Assumptions c13_confirmed_renewal_keeps_data.
+
+(* ... and then its storage proof can be built *)
+Theorem c13_confirmed_successor_proves : forall X id c m,
+  status X id = Some CActive -> alookup id (t2 (dbs (xb X))) = Some c ->
+  mroot c = m -> all_located (dbs (xb X)) (cache_get (xb X) id) = true ->
+  snd (xstep X (XProve id m)) = XO (OBool true) /\ status (fst (xstep X (XProve id m))) id = Some CSuccessful.
+Proof. exact xprove_succeeds. Qed.
+Print Assumptions c13_confirmed_successor_proves.
+
+
 (* non-vacuity: the example history renews contract 7 to 8; 7 then refuses the lock, 8 accepts it
    and was revised *)
 Example c13_nonvacuous :
@@ -149,3 +264,10 @@ Example c13_nonvacuous :
   snd (step (runs init ex_ops) (Lock1 7)) = ORes (Err EInvalid) /\
   snd (step (runs init ex_ops) (Lock1 8)) = ORes (Ok tt).
 Proof. exact (conj ex_disc (proj2 (proj2 ex_final))). Qed.
+
+(* non-vacuity of c13_confirmed_renewal_keeps_data: the witness history with the renewal confirmed *)
+Example c13_confirmed_nonvacuous :
+  let X := xruns xinit (ex_upload ++ [ XOp (Renew2 7 8 (xfc 0 sector_size (meta0 [1])) (meta0 [1]) true None); XConfirm 8 ]) in
+  exists c, alookup 8 (t2 (dbs (xb X))) = Some c /\ confirmed (status X 8) /\
+            quiet_run 8 c X [XExpire 50; XOp Prune; XReject 7; XExpire 1100] /\ tbl_list (rows c) = [1].
+Proof. exact ex_confirmed_quiet. Qed.
